@@ -419,15 +419,21 @@ def run_part(ctx, cov, quick):
             return c, run_case(exe, shim, helper, c, ctx.scratch)
         with concurrent.futures.ThreadPoolExecutor(max_workers=6) as ex:
             results = list(ex.map(one, cases))
+        confirmed = {"hung": 0, "late": 0}     # a second run, alone, showed the same: no need to re-run the rest
         for c, r in results:
             fun, tim = judge(c, r, peer, slack)
             hung = r["rc"] is None and not any(kd in TEARDOWN_KINDS for _, kd in c["hosts"])
-            if hung or (tim and not fun and not all(sg.endswith(":refused-connect-retried") for sg, _ in tim)):
+            late = bool(tim) and not fun and not all(sg.endswith(":refused-connect-retried") for sg, _ in tim)
+            if (hung and confirmed["hung"] < 2) or (late and not hung and confirmed["late"] < 2):
                 # a loaded machine: once more, alone, before anything is said about timing (or about not ending
                 # within the hard limit)
                 summary["retried_for_timing"] += 1
                 r = run_case(exe, shim, helper, c, ctx.scratch)
                 fun, tim = judge(c, r, peer, slack)
+                if r["rc"] is None:
+                    confirmed["hung"] += 1
+                elif tim:
+                    confirmed["late"] += 1
             summary["runs"] += 1
             cov["evaluations"] += 1
             summary["walls"].append(r["wall"])
